@@ -2,5 +2,6 @@
 EXTENDS Connections
 MCWells == {"W1", "W2"}
 MCInput == {"W1"}
+NoWells == {}
 Bound == nops <= MaxOps /\ step <= MaxSteps
 =============================================================================
